@@ -159,8 +159,10 @@ class _ExecutorWrapper[**Args, Result]:
         *args: Args.args,
         **kwargs: Args.kwargs,
     ) -> Result:
+        context: Context = copy_context()
         return await (self._loop or get_running_loop()).run_in_executor(
             self._executor,
+            context.run,
             partial(self._function, __method_self, *args, **kwargs),
         )
 
